@@ -159,4 +159,16 @@ C03_MdS == UNION { LET m == SD("dict", NoVal, <<<<C03_KB, C03_L(v)>>>>)
                  : v \in {C03_V1, C03_V2} }
 C03_DocsMdS == SetToSeq({SD("dict", NoVal, <<<<C03_KA, m>>>>) : m \in C03_MdS})
 
+\* several NULL entries in one tagged mapping (written as empty entries by the renderer in half of the documents), merged with
+\* entries carrying metadata: each entry is a node of its own (F23: the loader made them one shared node)
+C03_N == SD("scalar", Atom("n", ""), <<>>)
+C03_KC == SKey("c")
+C03_NullDocs == {SD("dict", NoVal, <<<<C03_KA, C03_Md(C03_L(C03_V1), "m", C03_V1)>>>>),
+                 SD("dict", NoVal, <<<<C03_KA, C03_L(C03_V1)>>, <<C03_KC, C03_Md(C03_L(C03_V2), "n", C03_V2)>>>>)}
+                \cup TagAll({SD("dict", NoVal, <<<<C03_KC, C03_N>>, <<C03_KA, C03_N>>>>),
+                            SD("dict", NoVal, <<<<C03_KA, C03_N>>, <<C03_KB, C03_N>>, <<C03_KC, C03_N>>>>)}, C03_PrTags)
+                \cup {SD("dict", NoVal, <<<<C03_KA, WithTag(SD("dict", NoVal, <<<<C03_KB, C03_N>>, <<C03_KC, C03_N>>>>), "force")>>>>),
+                     SD("dict", NoVal, <<<<C03_KA, SD("dict", NoVal, <<<<C03_KB, C03_Md(C03_L(C03_V1), "m", C03_V1)>>>>)>>>>)}
+C03_DocsNull == SetToSeq(C03_NullDocs)
+
 =============================================================================
